@@ -71,7 +71,7 @@ def _reg():
 
 
 def _entries(fn):
-    return _reg().setdefault('_byfn', {}).get(fn, [])
+    return list(_reg().setdefault('_byfn', {}).get(fn, []))       # a copy: callers may register new applications while iterating
 
 
 def _add(k, entry):
